@@ -280,13 +280,27 @@ class Program:
                     post = ("broadcast", name, v)
                 elif op == "modify_vector":
                     n = nrow if names else rng.randint(0, 3)
-                    v = di.Vector(gen.np_column(kind, gen.gen_values(rng, kind, n, "some")))
-                    operands.append(v)
+                    donors = [(o, c) for o in self.pool for c in dict.keys(o) if canon.frame_nrow(o) == nrow and names]
+                    if donors and rng.random() < 0.5:
+                        # an existing column (already a DataFrameColumn of the right length) handed over as the new value
+                        src, cname = rng.choice(donors)
+                        v = dict.__getitem__(src, cname)
+                        if src is not df:
+                            operands.append(src)
+                        self.mon.count("modify-with-existing-column")
+                    else:
+                        v = di.Vector(gen.np_column(kind, gen.gen_values(rng, kind, n, "some")))
+                        operands.append(v)
                     call = lambda: df.modify(**{name: v})
                 elif op == "modify_callable":
                     n = nrow if names else rng.randint(0, 3)
-                    arr = gen.np_column(kind, gen.gen_values(rng, kind, n, "some"))
-                    call = lambda: df.modify(**{name: lambda d: di.Vector(arr)})
+                    if names and rng.random() < 0.5:
+                        cname = rng.choice(names)
+                        call = lambda: df.modify(**{name: lambda d: d[cname]})
+                        self.mon.count("modify-with-existing-column")
+                    else:
+                        arr = gen.np_column(kind, gen.gen_values(rng, kind, n, "some"))
+                        call = lambda: df.modify(**{name: lambda d: di.Vector(arr)})
                 else:
                     cols = self.pick_cols(df, 1, 2)
                     if not cols or nrow == 0: return
